@@ -33,6 +33,7 @@ pub struct RX(pub u32);         // never in a resource list
 pub struct RNS(pub Rc<u32>);
 pub struct ROK(pub Arc<u32>);
 pub struct RCELL(pub Cell<u32>);   // Send, not Sync
+pub struct SN(pub std::sync::MutexGuard<'static, u32>);   // Sync, not Send
 type Reg = Registry!(A, B, C);
 type RegN = Registry!(A, NS, NY, OK);
 fn touch<T>(_t: T) {}
@@ -245,6 +246,8 @@ def gen():
 
     thread_prog("f7_move_world", "F7 move a world to a thread", lambda c: "pub fn f(world: World<Registry!(A, %s)>) { std::thread::spawn(move || drop(world)); }" % c, "World moved into a spawned thread")
     thread_prog("f7_share_world", "F7 share a world between threads", lambda c: "pub fn f(world: &World<Registry!(A, %s)>) { std::thread::scope(|s| { s.spawn(|| touch(world.len())); }); }" % c, "&World used from a scoped thread")
+    add("f7_move_world_sn", "F7 move a world to a thread", "pub fn f(world: World<Registry!(A, SN)>) { std::thread::spawn(move || drop(world)); }", "reject", "World with a Sync-but-not-Send component moved")
+    add("f7_share_world_sn_twin", "F7 share a world between threads twin", "pub fn f(world: &World<Registry!(A, SN)>) { std::thread::scope(|s| { s.spawn(|| touch(world.len())); }); }", "accept", "&World with Sync components shared")
     add("f7_share_world_ny", "F7 share a world between threads", "pub fn f(world: &World<Registry!(A, NY)>) { std::thread::scope(|s| { s.spawn(|| touch(world.len())); }); }", "reject", "&World with a Send-but-not-Sync component shared")
     add("f7_move_world_ny_twin", "F7 move a world to a thread twin", "pub fn f(world: World<Registry!(A, NY)>) { std::thread::spawn(move || drop(world)); }", "accept", "World with Send components moved")
     add("f7_share_world_res_ny", "F7 share a world between threads", "pub struct RNY(pub Cell<u32>); pub fn f(world: &World<Reg, Resources!(R1, RNY)>) { std::thread::scope(|s| { s.spawn(|| touch(world.len())); }); }", "reject", "&World with a Send-but-not-Sync resource shared")
@@ -270,6 +273,11 @@ def gen():
         add("f7_iter_%s_ny%s" % (k, "" if shared else "_twin"), "F7 send a query iterator to a thread (Send, not Sync payload)" + ("" if shared else " twin"), mk("NY"), "reject" if shared else "accept", "result::Iter over %s of a Cell component sent to a scoped thread" % k)
         add("f7_entries_%s_ny%s" % (k, "" if shared else "_twin"), "F7 send an Entries handle to a thread (Send, not Sync payload)" + ("" if shared else " twin"), mk2("NY"), "reject" if shared else "accept", "query::Entries with entry view %s of a Cell component sent to a scoped thread" % k)
         add("f7_par_query_%s_ny%s" % (k, "" if shared else "_twin"), "F7 par_query (Send, not Sync payload)" + ("" if shared else " twin"), mk3("NY"), "reject" if shared else "accept", "par_query with view %s of a Cell component" % k)
+        # Sync-but-not-Send payload (a MutexGuard): exclusive views (&mut, Option<&mut>) must not cross threads, shared views may
+        excl = k in "wp"
+        add("f7_iter_%s_sn%s" % (k, "" if excl else "_twin"), "F7 send a query iterator to a thread (Sync, not Send payload)" + ("" if excl else " twin"), mk("SN"), "reject" if excl else "accept", "result::Iter over %s of a MutexGuard component sent to a scoped thread" % k)
+        add("f7_entries_%s_sn%s" % (k, "" if excl else "_twin"), "F7 send an Entries handle to a thread (Sync, not Send payload)" + ("" if excl else " twin"), mk2("SN"), "reject" if excl else "accept", "query::Entries with entry view %s of a MutexGuard component sent to a scoped thread" % k)
+        add("f7_par_query_%s_sn%s" % (k, "" if excl else "_twin"), "F7 par_query (Sync, not Send payload)" + ("" if excl else " twin"), mk3("SN"), "reject" if excl else "accept", "par_query with view %s of a MutexGuard component" % k)
         def mk2b(c, k=k):
             # the handle is shared by reference between two threads (needs Entries: Sync)
             return ("pub fn f(world: &mut World<Registry!(A, %s)>) { let res = world.query(Query::<Views!(), filter::None, Views!(), Views!(%s)>::new()); let en = &res.entries; "
